@@ -36,9 +36,12 @@ type dumpDb struct {
 	Keys []dumpKey
 }
 
-func (e *Engine) integrity() string {
+func (e *Engine) integrity() string { return integrityOf(e.srv, 0) }
+
+// the internal-structure check on emulator eng of the child process
+func integrityOf(srv *Server, eng int) string {
 	for db := 0; db < 3; db++ {
-		line, err := e.srv.Ctl(fmt.Sprintf("DUMP 0 %d", db), 5*time.Second)
+		line, err := srv.Ctl(fmt.Sprintf("DUMP %d %d", eng, db), 5*time.Second)
 		if err != nil {
 			return ""
 		}
